@@ -17,6 +17,7 @@ from __future__ import annotations
 import itertools
 import json
 import os
+import re
 
 import pydsdl
 
@@ -394,3 +395,88 @@ def cases_of(shard):
     for i, (label, _steps) in enumerate(histories(shard["family"])):
         if i % shard["parts"] == shard["part"]:
             yield {"kind": "call-history", "label": label}
+
+
+# ------------------------------------------------------------------------------------------------ probes on the returned type objects
+def sample_value(t, salt: int = 0):
+    """A deterministic non-default value valid for the pydsdl type t (used to probe serialize on types returned by a call)."""
+    if isinstance(t, pydsdl.BooleanType):
+        return salt % 2 == 0
+    if isinstance(t, pydsdl.FloatType):
+        return 1.5 + salt
+    if isinstance(t, pydsdl.UnsignedIntegerType):
+        return ((1 << t.bit_length) - 1 - salt) % (1 << t.bit_length)
+    if isinstance(t, pydsdl.SignedIntegerType):
+        return -(1 << (t.bit_length - 1)) + salt
+    if isinstance(t, pydsdl.VoidType):
+        return None
+    if isinstance(t, pydsdl.ArrayType):
+        n = t.capacity if isinstance(t, pydsdl.FixedLengthArrayType) else min(t.capacity, 2)
+        if isinstance(t.element_type, pydsdl.UTF8Type):
+            return "ab"[:n]
+        if isinstance(t.element_type, pydsdl.ByteType):
+            return bytes([0xA5, 0x5A, 0xFF][:n])
+        return [sample_value(t.element_type, salt + i) for i in range(n)]
+    if isinstance(t, pydsdl.DelimitedType):
+        return sample_value(t.inner_type, salt)
+    if isinstance(t, pydsdl.UnionType):
+        f = t.fields[salt % len(t.fields)]
+        return {f.name: sample_value(f.data_type, salt)}
+    if isinstance(t, pydsdl.StructureType):
+        return {f.name: sample_value(f.data_type, salt + i) for i, f in enumerate(t.fields_except_padding)}
+    raise TypeError(t)
+
+
+PROBE_BYTES = [b"", b"\x00", b"\x01", b"\xff", b"\x01\x02\x03\x04", b"\xff" * 6, b"\x02\x00\x00\x00\x11\x22\x33\x44\x55", b"\x01\x00\x00\x00\xaa\xbb\xcc\xdd\xee\xff\x01\x02", bytes(range(1, 24)), b"\x80\x7f" * 8]
+
+
+def probe_codec(types) -> list:
+    """Observation of serialize / deserialize on the composite types a call returned (services: their two parts)."""
+    from pydsdl import _serdes
+
+    out = []
+    flat = []
+    for t in types or []:
+        flat += [t.request_type, t.response_type] if isinstance(t, pydsdl.ServiceType) else [t]
+    for t in flat:
+        row = {"type": re.sub(r"(qq[abl])\d+x\d+", r"\1", str(t)), "ser": [], "de": []}
+        for salt in (0, 1, 2):
+            try:
+                v = sample_value(t, salt)
+                b = pydsdl.serialize(t, v)
+                row["ser"].append([repr(v), b.hex(), repr(pydsdl.deserialize(t, b))])
+            except Exception as ex:  # noqa
+                row["ser"].append(["raised", type(ex).__name__, str(ex)[:80]])
+        for b in PROBE_BYTES:
+            try:
+                row["de"].append(repr(pydsdl.deserialize(t, b)))
+            except (_serdes.SerDesError, ValueError) as ex:
+                row["de"].append("rejected:" + type(ex).__name__)
+            except Exception as ex:  # noqa
+                row["de"].append("foreign:" + type(ex).__name__)
+        out.append(row)
+    return out
+
+
+def check_history_codec(label: dict, R, fingerprint: str, clause: str, flavours=("two-dirs", "edited")) -> None:
+    """As check_history, but the observation is what serialize / deserialize do with the RETURNED type objects."""
+    steps = steps_of(label)
+    solos = []
+    for st in steps:
+        o, r, b = run_step(st, _fresh_suffix(), raw=True)
+        solos.append(probe_codec(r))
+        ws.remove(b)
+    for fl in flavours:
+        suffix_outs = run_history(steps, fl, raw=True)
+        for k, (o, r) in enumerate(suffix_outs):
+            R.transitions += 1
+            got = probe_codec(r)
+            R.case([label, fl, k, "codec"], nontrivial=k >= 1, sample=False)
+            if got != solos[k]:
+                R.outcome("history-dependent")
+                bad = next((i for i in range(min(len(got), len(solos[k]))) if got[i] != solos[k][i]), 0)
+                R.violation("%s:%s:%s" % (fingerprint, label["family"], "same-directory-edited" if fl == "edited" else "another-directory"), clause + " - also when earlier calls of the same process read other definitions with the same names", {"kind": "call-history", "label": label, "flavour": fl, "step": k}, observed=_brief(got[bad] if bad < len(got) else got), expected=_brief(solos[k][bad] if bad < len(solos[k]) else solos[k]))
+                break
+        else:
+            R.outcome("history-independent")
+        R.traces += 1
